@@ -411,6 +411,11 @@ def _consolidate_continuation_lines(lines: list[str], offset: int) -> tuple[str,
     # start processing after first item
     curr_line_index += 1
     while curr_line_index < len(lines) and not lines[curr_line_index].startswith(":"):
+        if not lines[curr_line_index].strip():
+            # A blank line ends the field, unless what follows is still indented under it.
+            following = next((line for line in lines[curr_line_index + 1 :] if line.strip()), "")
+            if not following[:1].isspace():
+                break
         block.append(lines[curr_line_index].lstrip())
         curr_line_index += 1
 
